@@ -26,6 +26,11 @@ func init() {
 	register(&PropertyRule{ID: "C19", Explain: "structural conditions of C19 (determinism): all nondeterminism sources, map iterations and globals in code reachable from the API; see DESIGN.md §5 C19", Run: func(c *Check) {
 		c19Determinism(c)
 	}})
+	register(&PropertyRule{ID: "C07", Explain: "structural necessary conditions of C07 (HardState monotone): see DESIGN.md §5 C07", Run: func(c *Check) {
+		gCommitMono(c)
+		gVote(c)
+		c07HardState(c)
+	}})
 	register(&PropertyRule{ID: "C03", Explain: "structural necessary conditions of C03 (log matching): see DESIGN.md §5 C03", Run: func(c *Check) {
 		gTrunc(c)
 		gStable(c)
